@@ -128,8 +128,14 @@ pub fn queries(r: &mut Rng, rules: &[String], n: usize) -> Vec<Query> {
     let mut q = vec![];
     let nets: Vec<&String> = rules.iter().filter(|l| !l.contains("##") && !l.contains("#@#")).collect();
     for i in 0..n {
+        let mut listed: Vec<String> = vec![];
         let url = if !nets.is_empty() && i % 3 != 2 {
             let l = nets[r.below(nets.len())];
+            // the rule's own domain list (included and excluded entries alike) is where its
+            // interesting initiators are
+            if let Some(d) = l.split("domain=").nth(1) {
+                listed = d.split(',').next().unwrap_or("").split('|').map(|x| x.trim_start_matches('~').to_string()).filter(|x| !x.is_empty()).collect();
+            }
             let mut u = gen::url_for(r, l);
             if r.chance(1, 3) {
                 u.push_str(&format!("?{}=1&b=2", r.pick(gen::PARAMS)));
@@ -138,7 +144,10 @@ pub fn queries(r: &mut Rng, rules: &[String], n: usize) -> Vec<Query> {
         } else {
             gen::url(r)
         };
-        let source = {
+        let source = if !listed.is_empty() && r.chance(2, 3) {
+            let d = &listed[r.below(listed.len())];
+            format!("https://{}{}/page", r.pick(&["", "", "sub.", "x.y."]), d)
+        } else {
             let s = gen::source_url(r);
             if s.is_empty() { "https://a.com/page".to_string() } else { s }
         };
@@ -443,6 +452,12 @@ fn mp_optl(o: &Option<Vec<u64>>) -> String {
         Some(v) => mp_arr(&v.iter().map(mp_int).collect::<Vec<_>>()),
     }
 }
+fn mp_optn(o: &Option<u64>) -> String {
+    match o {
+        None => "MNil".into(),
+        Some(n) => mp_int(n),
+    }
+}
 pub fn mp_rule(f: &FilterDump) -> String {
     let part = match f.filter_kind {
         "empty" => mp_map(&[(mp_int(0), "MNil".to_string())]),
@@ -452,6 +467,7 @@ pub fn mp_rule(f: &FilterDump) -> String {
     mp_arr(&[
         mp_int(f.id), mp_int(f.mask), part, mp_opt(&f.modifier_option), mp_opt(&f.hostname), mp_opt(&f.tag),
         mp_optl(&f.opt_domains), mp_optl(&f.opt_not_domains), mp_opt(&f.raw_line),
+        mp_optn(&f.opt_domains_union), mp_optn(&f.opt_not_domains_union),
     ])
 }
 fn mp_buckets(l: &[(u64, Vec<FilterDump>)]) -> String {
